@@ -401,10 +401,22 @@ def r84(ctx, R):
     # trait associations: only existing traits reach set_traits
     h = prog.func('placement.handlers.trait:update_traits_for_resource_provider')
     st = [s.node for s in ctx.cg.calls_in(h) if s.method == 'set_traits']
+    found = st[0].args[0].id if len(st) == 1 and st[0].args and isinstance(
+        st[0].args[0], ast.Name) else None
+
+    def _missing_test(t):
+        # truth of (requested names - names of the objects found)
+        if not isinstance(t, ast.Name) or found is None:
+            return False
+        d = single_def(h, t.id)
+        return d is not None and isinstance(d.value, ast.BinOp) and \
+            isinstance(d.value.op, ast.Sub) and C.depends_on(
+                h, d.value.right, found) and not C.depends_on(
+                    h, d.value.left, found)
     bads = [x for x in own_nodes(h.node) if isinstance(x, ast.If)
             and x.body and isinstance(x.body[-1], ast.Raise)
             and ctx.raises.exc_name(h, x.body[-1].exc) ==
-            'webob.exc.HTTPBadRequest' and 'trait' in src(x.test)]
+            'webob.exc.HTTPBadRequest' and _missing_test(x.test)]
     okt = len(st) == 1 and bads and cfgmod.cfg_of(h).dominates(
         bads[0], C.stmt_of(st[0]))
     arg_ok = False
